@@ -40,6 +40,7 @@ def gen(run):
     raw += list(W.truncations("cursor")) + list(W.truncations("strict"))
     raw += list(W.sparse_sizes())
     raw += list(W.mutations(run.rng, 600 if quick else 20000))
+    raw += list(W.dim_sensitive(run.rng, 25 if quick else 400))
     raw += list(W.sequences(3 if quick else 4, FLAGSETS_Q if quick else FLAGSETS_ALL))
     raw += list(W.frame_sequences(2 if quick else 3, [0, W.ALPHA] if quick else [0, W.ALPHA, W.EXIF]))
     if not quick:
